@@ -18,6 +18,7 @@ pub use crate::vstdx::*;
 pub use crate::vspec_nonce::*;
 pub use crate::vspec_codec::*;
 pub use crate::vspec_batch::*;
+pub use crate::vspec_agg::*;
 verus! {
 //@module_serves ALL
 
